@@ -138,6 +138,7 @@ struct Real<A, B> {
 
 fn run_path<A: DShape, B: DShape>(g: &mut Grid, path: &[Op]) {
     vrt::begin_execution();
+    g.begin(&format!("ArcUnion<{},{}> {:?}", A::NAME, B::NAME, path));
     let same_type = std::any::TypeId::of::<A>() == std::any::TypeId::of::<B>();
     let mut r: Real<A, B> = Real { arcs_a: Vec::with_capacity(8), arcs_b: Vec::with_capacity(8), us: Vec::with_capacity(8), a_block: 0, b_block: 0 };
     let mut m = Model::default();
